@@ -110,7 +110,7 @@ pub struct HistCase {
     pub ops: Vec<HOp>,
 }
 
-const KINDS: [&str; 13] = [
+const KINDS: [&str; 14] = [
     "decode_bytes",
     "decode_str",
     "bpm",
@@ -124,15 +124,27 @@ const KINDS: [&str; 13] = [
     "grad_perf",
     "attrs",
     "perf_from_attrs",
+    // the same logical call as "calc", on a map decoded for the occasion and dropped afterwards:
+    // consecutive temporaries tend to land at the same addresses
+    "calc_temp",
 ];
 
 fn gen_case(rng: &mut Rng, tier: Tier) -> HistCase {
     let max_n = if tier == Tier::Quick { 30 } else { 60 };
     let n_maps = 1 + rng.usize(3);
-    let mut maps = Vec::new();
-    let mut modes = Vec::new();
-    for _ in 0..n_maps {
-        if rng.chance(0.2) {
+    let mut maps: Vec<MapText> = Vec::new();
+    let mut modes: Vec<usize> = Vec::new();
+    let siblings = rng.chance(0.35);
+    for mi in 0..n_maps {
+        if siblings && mi > 0 {
+            // a different map of the same mode with the same number of objects as the first one
+            let mode = modes[0];
+            let mut sh = gen_shape(rng, mode, max_n);
+            sh.n = maps[0].objects.len();
+            sh.tie_timing = rng.chance(0.5);
+            maps.push(gen_map(rng, &sh));
+            modes.push(mode);
+        } else if rng.chance(0.2) {
             let idx = rng.usize(4);
             maps.push(real_window(rng, idx, max_n));
             modes.push(idx);
@@ -154,7 +166,7 @@ fn gen_case(rng: &mut Rng, tier: Tier) -> HistCase {
         } else {
             modes[map]
         };
-        let kind = KINDS[rng.weighted(&[3, 3, 14, 5, 5, 5, 12, 8, 12, 8, 8, 5, 6])];
+        let kind = KINDS[rng.weighted(&[3, 3, 14, 5, 5, 5, 12, 8, 12, 8, 8, 5, 6, 12])];
         let n = maps[map].objects.len() as u32;
         calls.push(CallSpec {
             kind: kind.to_owned(),
@@ -219,6 +231,12 @@ fn exec_call(w: &mut World, c: &CallSpec, i: usize, reuse: bool) -> String {
             format!("{r:?} {m:?}")
         }
         "calc" => format!("{:?}", sut::oneshot_diff(&d, map, c.target)),
+        "calc_temp" => {
+            let tmp = Box::new(sut::decode(&w.texts[c.map]));
+            let r = format!("{:?}", sut::oneshot_diff(&d, &tmp, c.target));
+            drop(tmp);
+            r
+        }
         "strains" => format!("{:?}", sut::oneshot_strains(&d, map, c.target)),
         "perf" => {
             let p = Performance::new(map).difficulty(d).try_mode(mode);
@@ -268,7 +286,12 @@ fn exec_call(w: &mut World, c: &CallSpec, i: usize, reuse: bool) -> String {
 }
 
 fn memo_key(c: &CallSpec) -> String {
-    c.to_json().to_string()
+    let mut j = c.to_json();
+    if c.kind == "calc_temp" {
+        // same logical call as on the pool map: must give the same value
+        j["kind"] = json!("calc");
+    }
+    j.to_string()
 }
 
 fn exec(case: &HistCase, st: &mut Stats) -> Option<Violation> {
